@@ -95,6 +95,10 @@ let () = iter_lines (fun line ->
         done
       end;
       print_endline (Buffer.contents b)
+  | "rs" :: _ ->
+      (* whole image through jpeg_read_scanlines(max_lines): every call stays within its rows
+         (C11_read_scanlines_rows_within); the calls together deliver the scaled height *)
+      Printf.printf "ok total=%d\n" (int_of_z (tjscaled (gz t "h") (gz t "num") (gz t "den")))
   | "kern" :: _ ->
       (* one row through one SIMD kernel: footprint on the caller-side row *)
       let cols = gz t "n" in
